@@ -69,7 +69,8 @@ def ss_strategy(draw, tier):
         d = (r1 + r2) * (1 + f)
     else:
         d = f * 1.5 * (r1 + r2)
-    return {"r1": r1, "r2": r2, "d": d, "mode": mode, "pose": draw(pose())}
+    # the caller may build both spheres from one position buffer that it goes on updating in place
+    return {"r1": r1, "r2": r2, "d": d, "mode": mode, "pose": draw(pose()), "reuse_buffer": draw(st.integers(0, 3)) == 0}
 
 
 def _axis(p):
@@ -95,8 +96,16 @@ def run_ss(case, ctx):
     ctx.cls("ss:" + case["mode"], "ss:partial-overlap" if partial else "ss:not-partial")
     ctx.nontrivial(partial)
     info = f"r1={r1!r} r2={r2!r} d={d!r} axis={case['pose']['axis']} c={case['pose']['c']}"
-    s1 = VolSphere(c, r1)
-    s2 = VolSphere(c + u * d, r2)
+    if case.get("reuse_buffer"):
+        ctx.cls("centres-from-one-reused-buffer")
+        buf = c.copy()
+        s1 = VolSphere(buf, r1)
+        buf += u * d  # in place: the first sphere was built from the buffer's earlier content
+        s2 = VolSphere(buf, r2)
+        buf += 1000.0  # and the buffer lives on
+    else:
+        s1 = VolSphere(c, r1)
+        s2 = VolSphere(c + u * d, r2)
     prof = [models.rev_sphere(0.0, r1), models.rev_sphere(d, r2)]
     L = max(r1, r2, d)
     v1 = 4.0 / 3.0 * math.pi * r1 ** 3
@@ -210,7 +219,7 @@ def run_sf(case, ctx):
 
 SUBCHECKS = [
     Sub("sphere_sphere", ss_strategy, run_ss, quick=8000, thorough=120000, shards_quick=4,
-        required={"ss:partial-overlap": 500, "ss:near-coincident": 50, "ss:ext-tangent": 50, "ss:int-tangent": 50, "ss:concentric": 50,
+        required={"ss:partial-overlap": 500, "ss:near-coincident": 50, "centres-from-one-reused-buffer": 300, "ss:ext-tangent": 50, "ss:int-tangent": 50, "ss:concentric": 50,
                   "ss:nested": 50, "ss:disjoint": 50, "ss:equal-radii": 50}),
     Sub("cap_frustum", cap_strategy, run_cap, quick=3000, thorough=40000, shards_quick=2,
         required={"cap:h=0": 30, "cap:h=r": 30, "cap:h=2r": 30, "cap:general": 300, "frustum:cylinder": 50}),
